@@ -12,10 +12,33 @@ def setup(sh):
     monitors.install_pipeline()
 
 
-def one(sh, arr, m, driver='array'):
-    from bycycle.burst.utils import check_min_burst_cycles
-    case = {'is_burst': arr, 'min_n_cycles': m}
+LAYOUTS = ('c', 'strided', 'reversed', 'column')
+
+
+def laid_out(arr, layout):
+    """The same boolean values in another memory layout (a view of a larger / reversed / 2-D buffer)."""
     x = np.array(arr, dtype=bool)
+    if layout == 'strided':
+        buf = np.zeros(2 * len(x), dtype=bool)
+        buf[::2] = x
+        buf[1::2] = ~x
+        return buf[::2]
+    if layout == 'reversed':
+        return np.array(x[::-1], copy=True)[::-1]
+    if layout == 'column':
+        buf = np.zeros((len(x), 3), dtype=bool)
+        buf[:, 1] = x
+        buf[:, 2] = ~x
+        return buf[:, 1]
+    return x
+
+
+def one(sh, arr, m, driver='array', layout='c'):
+    from bycycle.burst.utils import check_min_burst_cycles
+    case = {'is_burst': arr, 'min_n_cycles': m, 'layout': layout}
+    x = laid_out(arr, layout)
+    if layout != 'c':
+        attach.count('C08:layout=' + layout)
     vs = []
     try:
         out = check_min_burst_cycles(x, min_n_cycles=m)
@@ -31,7 +54,7 @@ def one(sh, arr, m, driver='array'):
     if out is not None and not vs:
         # idempotence, checked by the driver (second monitored execution)
         once = np.array(out, copy=True)
-        twice = check_min_burst_cycles(np.array(once, copy=True), min_n_cycles=m)
+        twice = check_min_burst_cycles(laid_out(once.tolist(), layout), min_n_cycles=m)
         vs += [v for v in attach.take_violations() if v['property'] in (PROP, '_monitor')]
         if not np.array_equal(once, twice):
             vs.append({'mechanism': 'not-idempotent', 'message': 'f(f(x)) != f(x) for m=%r x=%s' % (m, arr)})
@@ -68,6 +91,11 @@ def run(sh):
             for m in range(0, n + 2):
                 one(sh, arr, m, 'exhaustive')
                 total += 1
+                # the same array as a non-contiguous view: all three kinds for short arrays, one (rotating) beyond
+                for li, lay in enumerate(LAYOUTS[1:]):
+                    if n <= 8 or (idx + m) % 3 == li:
+                        one(sh, arr, m, 'exhaustive', lay)
+                        total += 1
             if isnt:
                 nt += 1
                 sh.nontrivial.add('x%d:%d' % (n, idx))
@@ -96,10 +124,13 @@ def run(sh):
             m = float('inf')
         else:
             m = -int(rng.integers(1, 4))
-        one(sh, arr, m, 'random')
+        one(sh, arr, m, 'random', LAYOUTS[int(rng.integers(0, 4))])
         sh.note('random:m=%s' % ('neg' if m < 0 else 'inf' if m == float('inf') else type(m).__name__))
         sh.case_done(None, nontrivial(arr), key='r%d:%d' % (sh.shard, it))
     sh.samples.append({'is_burst_len': n, 'min_n_cycles': m, 'space': 'random geometric runs'})
+    for k, v in attach.COUNTS.items():
+        if k.startswith('C08:'):
+            sh.classes[k[4:]] = v
 
 
 _run_generated = run
@@ -113,5 +144,5 @@ def run(sh):      # noqa: F811 - thorough tier: the repository's own tests are o
 
 
 def replay(sh, driver, case):
-    one(sh, [bool(v) for v in case['is_burst']], case['min_n_cycles'], driver)
+    one(sh, [bool(v) for v in case['is_burst']], case['min_n_cycles'], driver, case.get('layout', 'c'))
     sh.case_done(case, True)
